@@ -216,6 +216,15 @@ def run (case impl : String) : String × String :=
       else if got == some "neg" then "viol:C08:error-response-displaced-live-positive"
       else if got == some "miss" then "viol:C07:live-entry-missed"
       else "unparsed")
+  -- a second positive store of the same question (a successful refresh) replaces the entry in every tier: later
+  -- hits see the renewed ttl (C19), and a shorter one too (C08: the ttl never exceeds the upstream's)
+  | some "restore" =>
+    let got := kvGet (words ((impl.splitOn " ## ").headD "")) "got"
+    ("got=new", if impl == "panic" then "viol:panic"
+      else if got == some "new" then "ok"
+      else if got == some "old" then "viol:C19:refresh-did-not-replace-the-entry"
+      else if got == some "miss" then "viol:C07:live-entry-missed"
+      else "unparsed")
   -- redis only: the cache is in use from the moment the client has connected
   | some "rstart" =>
     let got := kvGet (words impl) "got"
